@@ -6,7 +6,7 @@
    is needed), outputs have arbitrary address lengths, bundles, datum and script sizes; fee figures and
    the bundles packed into change outputs are universally quantified oracle arguments. *)
 From CSL Require Import Base.Prelude Base.U64 Cbor.Head Cbor.HeadProofs
-  Codec.Schema Ledger.Schemas MinAda.OutputSize MinAda.MinAda MinAda.Change MinAda.MinAdaProofs MinAda.ChangeProofs MinAda.SchemaTie.
+  Codec.Schema Ledger.Schemas MinAda.OutputSize MinAda.MinAda MinAda.Change MinAda.MinAdaProofs MinAda.ChangeProofs MinAda.SchemaTie MinAda.TxSize.
 Local Open Scope N_scope.
 
 (* ---- the calculator, over (base, coin): size = base + head_size coin is all it sees ---- *)
@@ -130,6 +130,18 @@ Theorem C07_tx_size : forall (cfg : config) (full_size : N),
 Proof. exact build_guard_iff. Qed.
 Print Assumptions C07_tx_size.
 
+(* ... where the measured size is the size algebra of the whole transaction (inputs, outputs, fee, vkey and
+   bootstrap witnesses), and that algebra IS the length of the C01 schema encoding of the transaction: a released
+   transaction's encoding is within max_tx_size (for every unrolling depth d of the recursive schemas) *)
+Theorem C07_tx_size_encoding : forall (d : nat) (cfg : config) (x : ctx),
+  ctx_ok x ->
+  N.of_nat (length (enc_tx d x)) = full_tx_size (ctx_shape d x) /\
+  (build_tx_guard cfg (ctx_shape d x) = Ok tt -> N.of_nat (length (enc_tx d x)) <= c_max_tx_size cfg).
+Proof.
+  intros d cfg x H. split; [apply full_tx_size_is_encoding; exact H | apply build_tx_guard_encoding; exact H].
+Qed.
+Print Assumptions C07_tx_size_encoding.
+
 (* collateral return through the checked entry points: minimum ADA always; with the repair also the value size *)
 Theorem C07_collateral_return : forall (b : bool) (cfg : config) (ret : output),
   (collateral_return_guard_gen b cfg ret = Ok tt -> meets_min (c_cpb cfg) ret = true) /\
@@ -207,6 +219,10 @@ Proof. split; [exact topup_same_width_invariant | exact topup_min_ada_safe_short
 Print Assumptions C07_topup_conditional.
 
 (* ---- non-vacuity of the premises ---- *)
+Example ex_tx_size :              (* one input, one ADA-only output, one vkey witness *)
+  let x := mkCTx [(repeat 9 32, 0)] [mkCOut (repeat 1 29) 2000000 [] CDNone None] 170000 [(repeat 3 32, repeat 4 64)] [] in
+  ctx_ok x /\ full_tx_size (ctx_shape 0 x) = 197 /\ build_tx_guard (mkCfg 4310 5000 197) (ctx_shape 0 x) = Ok tt.
+Proof. cbn zeta. split; [repeat constructor|]. vm_compute. split; reflexivity. Qed.
 Example ex_schema_tie :           (* a post-Alonzo output: 3-byte address, one token, inline datum (uint 5), Plutus V2 script reference *)
   let o := mkCOut [97; 1; 2] 1500000 [(repeat 7 28, [([1; 2; 3], 9)])] (CDInline (VAlt 1 (VNat 5))) (Some (CSPlutus 1 [1; 2; 3; 4])) in
   ids28 (co_ma o) /\ hash_ok (co_datum o) /\ lang_ok (co_sref o) /\
